@@ -266,6 +266,8 @@ func (c *Ctx) analyseCodecBody(fd *ast.FuncDecl, dir string, helpers map[string]
 		return c.Info.Uses[id], true
 	}
 	var walkBlock func(list []ast.Stmt, guard string)
+	// retMode: the statement handled is `return H(...)`, the last codec call handing its offset and error straight on
+	retMode := false
 	handleAssign := func(as *ast.AssignStmt, next ast.Stmt, ifInit *ast.IfStmt, guard string) bool {
 		if len(as.Rhs) != 1 {
 			return false
@@ -301,7 +303,7 @@ func (c *Ctx) analyseCodecBody(fd *ast.FuncDecl, dir string, helpers map[string]
 		var errObj types.Object
 		if dir == "pack" {
 			// off, err = H(rr.F..., msg, off, ...)
-			if len(as.Lhs) != 2 || !c.isIdentOf(as.Lhs[0], offP) {
+			if !retMode && (len(as.Lhs) != 2 || !c.isIdentOf(as.Lhs[0], offP)) {
 				prob("result offset is not assigned back to parameter off")
 			}
 			if len(as.Lhs) == 2 {
@@ -409,7 +411,9 @@ func (c *Ctx) analyseCodecBody(fd *ast.FuncDecl, dir string, helpers map[string]
 			})
 			return mentions
 		}
-		if ifInit != nil {
+		if retMode {
+			cc.ErrOK = true
+		} else if ifInit != nil {
 			cc.ErrOK = checkIf(ifInit)
 		} else if nx, ok := next.(*ast.IfStmt); ok && nx.Init == nil {
 			cc.ErrOK = checkIf(nx)
@@ -477,6 +481,16 @@ func (c *Ctx) analyseCodecBody(fd *ast.FuncDecl, dir string, helpers map[string]
 					walkBlock(cl.(*ast.CaseClause).Body, guard+" switch")
 				}
 			case *ast.ReturnStmt:
+				if guard == "" && dir == "pack" && len(st.Results) == 1 {
+					// return H(rr.F, msg, off, ...): the codec's (off, err) are the method's results
+					retMode = true
+					handled := handleAssign(&ast.AssignStmt{Rhs: st.Results}, nil, nil, guard)
+					retMode = false
+					if handled {
+						cb.FinalReturns = append(cb.FinalReturns, "off, nil")
+						continue
+					}
+				}
 				if guard == "" {
 					var parts []string
 					for _, r := range st.Results {
